@@ -2,7 +2,8 @@
 C08 — the two omega2 algorithms agree where the standard one is valid; extreme exchange rates stay finite and
 approach the large-rate limit smoothly.
 
-E1: nodes = (crystal, base) x omega2 scale factor s (all omega2 prefactors multiplied by s) x algorithm choice
+E1: nodes = (crystal, base) x which omega2 classes are scaled (all together; each class alone when there are several)
+x omega2 scale factor s (prefactors of the scaled classes multiplied by s) x algorithm choice
 {forced standard (large_om2=inf), forced large (large_om2=-1), default}.  The branch actually taken is observed
 (the large branch is the only caller of numpy.linalg.eigh inside Lij once the GF cache is warm), so "forced" is
 verified, not assumed.  Oracles:
@@ -21,7 +22,7 @@ TECHNIQUE = 'bounded-exhaustive enumeration of (crystal, base, omega2 scale, alg
 RULE = ('node = (crystal, cutoff, Nthermo, base, omega2 scale s, algorithm); edges = (std,large) pairs at equal s and consecutive scales '
         'of the default algorithm; nontrivial = nodes where the large branch was actually taken / pairs where both branches were observed')
 LEVEL_TEXT = 'Every scale of the alphabet on every listed crystal and base, with both forced algorithms and the default; the branch taken is observed by interposing on numpy.linalg.eigh.'
-LEVEL_NOTE = 'Scale alphabet {1e-3,1,1e3,1e6,1e8,1e9,1e10,1e12,1e14,1e16}; nothing is said about other scales or about scaling single omega2 classes.'
+LEVEL_NOTE = 'Scale alphabet {1e-3,1,1e3,1e6,1e8,1e9,1e10,1e12,1e14,1e16}, applied to all omega2 classes together and to each class alone; nothing is said about other scales.'
 
 SCALES = [1e-3, 1., 1e3, 1e6, 1e8, 1e9, 1e10, 1e12, 1e14, 1e16]
 QUICK = [('FCC', 0, 1), ('HCP', 0, 1), ('HONEY', 0, 1), ('OMEGA', 0, 1), ('RECTM', 0, 1), ('BCC', 1, 1)]
@@ -62,58 +63,81 @@ def evaluate(case):
     viols, outcomes = [], []
     d0 = vm.base_data(ent, case['base'])
     vm.package_L(ent, d0)          # warm the GF cache: the vacancy data never change below
-    res = {}
-    nodes = branch_large = pairs = 0
-    for s in SCALES:
-        d = {k: v.copy() for k, v in d0.items()}
-        d['preT2'] = d['preT2'] * s
-        for alg, kw in (('std', {'large_om2': np.inf}), ('large', {'large_om2': -1}), ('default', {})):
-            key = nkey + ';s={:.0e};alg={}'.format(s, alg)
-            try:
-                with EighSpy() as spy:
-                    L = vm.package_L(ent, d, **kw)
-                took_large = spy.n > 0
-            except Exception as e:
-                viols.append({'oracle': 'exception', 'key': key, 'detail': repr(e)}); continue
-            nodes += 1
-            res[(s, alg)] = (L, took_large)
-            if alg == 'std' and took_large: viols.append({'oracle': 'forced-standard-took-large-branch', 'key': key, 'detail': None})
-            if alg == 'large' and not took_large: viols.append({'oracle': 'forced-large-took-standard-branch', 'key': key, 'detail': None})
-            if alg == 'default':
-                if took_large: branch_large += 1
-                flat = np.hstack([x.ravel() for x in L])
-                if not np.all(np.isfinite(flat)):
-                    viols.append({'oracle': 'finite', 'key': key, 'detail': [x.tolist() for x in L]})
-                else:
-                    asym = max(float(np.abs(x - x.T).max()) for x in L) / vm.tscale(*L)
-                    if asym > 1e-9: viols.append({'oracle': 'symmetric', 'key': key, 'detail': asym})
-                outcomes.append('{}:{:.5e}'.format(int(took_large), float(np.trace(L[1]))))
-        # ---- standard vs large at this scale
-        if (s, 'std') in res and (s, 'large') in res and s <= 1e6:
-            pairs += 1
-            A, B = res[(s, 'std')][0], res[(s, 'large')][0]
-            sc = vm.tscale(*A)
-            for name, a, b in zip(NAMES, A, B):
-                e = float(np.abs(a - b).max()) / sc
-                if not np.isfinite(e) or e > max(1e-9, 1e-10 * s):
-                    viols.append({'oracle': 'agree-' + name, 'key': nkey + ';s={:.0e}'.format(s), 'detail': {'relerr': e, 'std': a.tolist(), 'large': b.tolist()}})
-    # ---- Cauchy in s for the default selection
-    big = [s for s in SCALES if s >= 1e8 and (s, 'default') in res and np.all(np.isfinite(np.hstack([x.ravel() for x in res[(s, 'default')][0]])))]
-    if len(big) >= 2:
-        L8, L9 = res[(big[0], 'default')][0], res[(big[1], 'default')][0]
-        sc = vm.tscale(*L9)
-        for n, name in enumerate(NAMES):
-            C = float(np.abs(L9[n] - L8[n]).max()) / (1. / big[0] - 1. / big[1])
-            for s1, s2 in zip(big[1:-1], big[2:]):
-                a, b = res[(s1, 'default')][0][n], res[(s2, 'default')][0][n]
-                e = float(np.abs(a - b).max())
-                if e > 2 * C / s1 + 1e-7 * sc:
-                    viols.append({'oracle': 'cauchy-' + name, 'key': nkey + ';s={:.0e}->{:.0e}'.format(s1, s2),
-                                  'detail': {'change/scale': e / sc, 'allowed/scale': (2 * C / s1 + 1e-7 * sc) / sc, 'at s': a.tolist(), 'at next s': b.tolist()}})
-            # the first pair itself must be a small change: the limit has been reached to 1e-3 by s = 1e8
-            e0 = float(np.abs(L9[n] - L8[n]).max()) / sc
-            if e0 > 1e-3:
-                viols.append({'oracle': 'cauchy-' + name, 'key': nkey + ';s={:.0e}->{:.0e}'.format(big[0], big[1]),
-                              'detail': {'change/scale': e0, 'allowed/scale': 1e-3}})
-    return {'states': nodes, 'transitions': pairs + max(0, len(big) - 1) * 4, 'execs': nodes, 'outcomes': outcomes, 'nontrivial': branch_large + pairs,
-            'violations': viols, 'sample': {'node': nkey, 'default took large branch at': [s for s in SCALES if res.get((s, 'default'), (None, False))[1]]}}
+    keys2 = vm.class_keys(ent)['T2']
+    order2 = sorted(range(len(keys2)), key=lambda n: keys2[n])
+    # which omega2 classes are scaled: all of them together, and (crystals with several exchange classes) each one alone
+    targets = [('all', list(range(len(keys2))))]
+    if len(keys2) >= 2: targets += [('.'.join(str(x) for x in keys2[n]), [n]) for n in order2]
+    nodes = branch_large = pairs = ntrans = 0
+    tooks = {}
+    for tname, tidx in targets:
+        res = {}
+        tkey = nkey + ';scaled=' + tname
+        for s in SCALES:
+            d = {k: v.copy() for k, v in d0.items()}
+            d['preT2'][tidx] = d['preT2'][tidx] * s
+            for alg, kw in (('std', {'large_om2': np.inf}), ('large', {'large_om2': -1}), ('default', {})):
+                key = tkey + ';s={:.0e};alg={}'.format(s, alg)
+                try:
+                    with EighSpy() as spy:
+                        L = vm.package_L(ent, d, **kw)
+                    took_large = spy.n > 0
+                except Exception as e:
+                    viols.append({'oracle': 'exception', 'key': key, 'detail': repr(e)}); continue
+                nodes += 1
+                res[(s, alg)] = (L, took_large)
+                if alg == 'std' and took_large: viols.append({'oracle': 'forced-standard-took-large-branch', 'key': key, 'detail': None})
+                if alg == 'large' and not took_large: viols.append({'oracle': 'forced-large-took-standard-branch', 'key': key, 'detail': None})
+                if alg == 'default':
+                    if took_large: branch_large += 1
+                    flat = np.hstack([x.ravel() for x in L])
+                    if not np.all(np.isfinite(flat)):
+                        viols.append({'oracle': 'finite', 'key': key, 'detail': [x.tolist() for x in L]})
+                    else:
+                        asym = max(float(np.abs(x - x.T).max()) for x in L) / vm.tscale(*L)
+                        if asym > 1e-9: viols.append({'oracle': 'symmetric', 'key': key, 'detail': asym})
+                    outcomes.append('{}:{:.5e}'.format(int(took_large), float(np.trace(L[1]))))
+            # ---- standard vs large at this scale
+            if (s, 'std') in res and (s, 'large') in res and s <= 1e6:
+                pairs += 1
+                A, B = res[(s, 'std')][0], res[(s, 'large')][0]
+                sc = vm.tscale(*A)
+                for name, a, b in zip(NAMES, A, B):
+                    e = float(np.abs(a - b).max()) / sc
+                    if not np.isfinite(e) or e > max(1e-9, 1e-10 * s):
+                        viols.append({'oracle': 'agree-' + name, 'key': tkey + ';s={:.0e}'.format(s), 'detail': {'relerr': e, 'std': a.tolist(), 'large': b.tolist()}})
+        # ---- Cauchy in s for the default selection
+        big = [s for s in SCALES if s >= 1e8 and (s, 'default') in res and np.all(np.isfinite(np.hstack([x.ravel() for x in res[(s, 'default')][0]])))]
+        if len(big) >= 2:
+            L8, L9 = res[(big[0], 'default')][0], res[(big[1], 'default')][0]
+            sc = vm.tscale(*L9)
+            for n, name in enumerate(NAMES):
+                C = float(np.abs(L9[n] - L8[n]).max()) / (1. / big[0] - 1. / big[1])
+                for s1, s2 in zip(big[1:-1], big[2:]):
+                    a, b = res[(s1, 'default')][0][n], res[(s2, 'default')][0][n]
+                    e = float(np.abs(a - b).max())
+                    ntrans += 1
+                    if e > 2 * C / s1 + 1e-7 * sc:
+                        viols.append({'oracle': 'cauchy-' + name, 'key': tkey + ';s={:.0e}->{:.0e}'.format(s1, s2),
+                                      'detail': {'change/scale': e / sc, 'allowed/scale': (2 * C / s1 + 1e-7 * sc) / sc, 'at s': a.tolist(), 'at next s': b.tolist()}})
+                # the first pair itself must be a small change: the limit has been reached to 1e-3 by s = 1e8
+                e0 = float(np.abs(L9[n] - L8[n]).max()) / sc
+                if e0 > 1e-3:
+                    viols.append({'oracle': 'cauchy-' + name, 'key': tkey + ';s={:.0e}->{:.0e}'.format(big[0], big[1]),
+                                  'detail': {'change/scale': e0, 'allowed/scale': 1e-3}})
+        # ---- monotone in s: speeding up exchanges never lowers Lss (Rayleigh), checked on the default selection
+        prev = None
+        for s in SCALES:
+            if (s, 'default') not in res: continue
+            Lss = res[(s, 'default')][0][1]
+            if prev is not None and np.all(np.isfinite(Lss)):
+                sc = vm.tscale(Lss, prev[1])
+                m = float(np.linalg.eigvalsh(0.5 * ((Lss - prev[1]) + (Lss - prev[1]).T)).min()) / sc
+                ntrans += 1
+                if m < -max(1e-7, 1e-16 * s):
+                    viols.append({'oracle': 'Lss-not-monotone-in-scale', 'key': tkey + ';s={:.0e}->{:.0e}'.format(prev[0], s),
+                                  'detail': {'min eig of change / scale': m, 'before': prev[1].tolist(), 'after': Lss.tolist()}})
+            prev = (s, Lss)
+        tooks[tname] = [s for s in SCALES if res.get((s, 'default'), (None, False))[1]]
+    return {'states': nodes, 'transitions': pairs + ntrans, 'execs': nodes, 'outcomes': outcomes, 'nontrivial': branch_large + pairs,
+            'violations': viols, 'sample': {'node': nkey, 'default took large branch at (by scaled class)': tooks}}
